@@ -28,18 +28,7 @@ def cmd_check(args):
     except Exception:                      # noqa: BLE001
         traceback.print_exc()
         ck.errors.append('pack crashed: ' + traceback.format_exc().splitlines()[-1])
-    if args.only:
-        ck.obligations = [o for o in ck.obligations if args.only in o.name]
-    if args.show:
-        for o in ck.obligations:
-            if args.show in o.name:
-                print('=====', o.name, 'path', o.path)
-                for h in o.hyps:
-                    print('  H:', h)
-                print('  G:', o.goal)
-    if args.list:
-        for o in ck.obligations:
-            print(o.name, len(o.hyps))
+    ck.only, ck.show = args.only, args.show
     rc = ck.finish()
     if args.verbose:
         for o in ck.obligations:
